@@ -858,9 +858,34 @@ func checkBlack(bm *gozxing.BitMatrix, m *viewModel, what string) string {
 // returned array) and compares them with the row model of the global method.
 func checkRows(bmp *gozxing.BinaryBitmap, m *viewModel, bl bool, r *kit.RNG, probe func(string), fail func(string, string, ...interface{}) (*fail17, bool), what string) (*fail17, bool) {
 	var arr *gozxing.BitArray
-	for i := 0; i < 4; i++ {
+	// a row obtained WITHOUT handing in an array belongs to the caller: it is
+	// kept (with a private copy) and must not change when more rows are fetched
+	var kept *gozxing.BitArray
+	var keptBits []bool
+	keptY := 0
+	for i := 0; i < 5; i++ {
 		y := r.Intn(m.h)
+		if i == 2 || i == 3 {
+			arr = nil // ask for a fresh array twice in a row
+		}
+		if arr != nil && arr == kept {
+			kept = nil // handed back in: the library may do with it what it likes
+		}
 		row, err := bmp.GetBlackRow(y, arr)
+		if kept != nil {
+			for x := 0; x < len(keptBits); x++ {
+				if kept.Get(x) != keptBits[x] {
+					return fail("row-changes-later", "%sthe row GetBlackRow(%d, nil) returned earlier changed at pixel %d when GetBlackRow(%d, ...) was called", what, keptY, x, y)
+				}
+			}
+		}
+		if err == nil && row != nil && arr == nil && row.GetSize() >= m.w {
+			kept, keptY = row, y
+			keptBits = make([]bool, m.w)
+			for x := range keptBits {
+				keptBits[x] = row.Get(x)
+			}
+		}
 		lum := make([]int, m.w)
 		for x := range lum {
 			lum[x] = int(m.at(x, y))
